@@ -69,6 +69,11 @@ Perturbations ==
 \cup {[kind |-> "enum", path |-> <<"elast","settings","mode_gamma","interpolator">>, value |-> "cubic_spline", valid |-> FALSE]}
 \cup {[kind |-> "enum", path |-> <<"elast","settings","symmetry","system">>, value |-> v, valid |-> TRUE] : v \in CrystalSystems}
 \cup {[kind |-> "enum", path |-> <<"elast","settings","symmetry","system">>, value |-> "rhombohedral", valid |-> FALSE]}
+\* an enumeration is a set of whole words: a documented name with something before or after it is another, undocumented word
+\cup {[kind |-> "enum", path |-> <<"elast","settings","symmetry","system">>, value |-> v \o x, valid |-> FALSE] : v \in CrystalSystems, x \in {"2", " ", "_a"}}
+\cup {[kind |-> "enum", path |-> <<"elast","settings","symmetry","system">>, value |-> "x" \o v, valid |-> FALSE] : v \in CrystalSystems}
+\cup {[kind |-> "enum", path |-> <<"elast","settings","mode_gamma","interpolator">>, value |-> v \o x, valid |-> FALSE] : v \in Interpolators, x \in {"2", "_"}}
+\cup {[kind |-> "enum", path |-> <<"elast","settings","mode_gamma","interpolator">>, value |-> "x" \o v, valid |-> FALSE] : v \in Interpolators}
 \cup {[kind |-> "extra_key", path |-> <<"elast","settings">>, valid |-> FALSE]}
 \cup {[kind |-> "extra_key", path |-> <<"elast","settings","symmetry">>, valid |-> FALSE]}
 \cup {[kind |-> "drop_section", path |-> <<"qha">>, valid |-> FALSE]}
